@@ -86,8 +86,8 @@ class Recorder:
             ["add_vertices", "add_edge", "add_edge_list", "add_edges", "delete_vertex", "delete_vertices",
              "recurrent_inplace", "rename_inplace", "copy", "has_edge", "edge_labels", "neighbors_out",
              "neighbors_in", "accepts", "follow", "prefix", "enumerate", "recurrent_copy", "multiple",
-             "short", "rename_copy"],
-            weights=[3, 10, 4, 4, 2, 1, 1, 2, 1, 3, 3, 2, 2, 3, 2, 2, 2, 1, 1, 1, 1])[0]
+             "short", "rename_copy", "enumerate_words"],
+            weights=[3, 10, 4, 4, 2, 1, 1, 2, 1, 3, 3, 2, 2, 3, 2, 2, 2, 1, 1, 1, 1, 2])[0]
         if op == "add_vertices":
             S = rng.sample(self.verts, rng.randint(1, 2))
             f.add_vertices(S)
@@ -171,6 +171,12 @@ class Recorder:
                 return
             v, k = rng.choice(vs), rng.randint(0, 3)
             res = [[list(w), e] for w, e in f.enumerate_fixed_length_paths(k, start_vertex=v, with_states=True)]
+            self.log(op, v=v, k=k, res=res)
+        elif op == "enumerate_words":
+            if not vs:
+                return
+            v, k = rng.choice(vs), rng.randint(0, 3)
+            res = [[list(w), e] for w, e in f.enumerate_words(k, start_vertex=v, with_states=True)]
             self.log(op, v=v, k=k, res=res)
         elif op == "recurrent_copy":
             self.log(op, res=views(f.recurrent(inplace=False)))
